@@ -47,6 +47,26 @@ def specStep (name : String) (backing : Bool) (a : List String) : Option String 
       let s ← pInts s; let n ← pInt n
       pure (fIntss (if s.els.isEmpty || n ≤ 0 then none else some (chunks n.toNat s.els)) ++ argsU)
   | "ReverseSlice", [s] => if s == "nilptr" then none else (pInts s).map fun s => fResult (s.map List.reverse)
+  -- laws: a swap exchanges two cells and touches nothing else; sums are the list sums; a mapping is `List.map`
+  | "SwapSlice", [s, i, j] => do
+      if s == "nilptr" then none else
+      let s ← pInts s; let i ← pInt i; let j ← pInt j
+      pure (fResult (s.map fun l =>
+        if i < 0 ∨ j < 0 ∨ i ≥ (l.length : Int) ∨ j ≥ (l.length : Int) then l
+        else (List.range l.length).map fun k =>
+          if k == i.toNat then l.getD j.toNat 0 else if k == j.toNat then l.getD i.toNat 0 else l.getD k 0))
+  | "SliceSum", [s, h] => do
+      let s ← pInts s; let h ← sumIdxOf h
+      pure (toString (((List.range s.els.length).map fun k => h k (s.els.getD k 0)).sum) ++ argsU)
+  | "MapSum", [m, h] => do
+      let m ← pMap m; let h ← sumKVOf h
+      pure (toString ((m.ents.map fun e => h e.1 e.2).sum) ++ argsU)
+  | "MappingFromSlice", [s, g] => do
+      let s ← pInts s; let g ← getterOf g
+      pure (fSl (s.map (List.map g)) ++ argsU)
+  | "MappingFromMap", [m, g] => do
+      let m ← pMap m; let g ← getterOf g
+      pure (fMp (m.map (List.map fun e => (e.1, g e.2))) ++ argsU)
   | "FilterOutByIndices", [s, i] => do
       let s ← pInts s; let i ← pInts i
       pure (fResult (s.map (fun l => dropIdx l i.els)))
